@@ -1161,7 +1161,12 @@ class Network:
         await self._event_bus.emit(MessageReceivedEvent(message, connection))
 
         # Complete expected response futures
-        for expected_response in self._expected_response_futures:
+        # Completed and cancelled futures are only removed from the list by
+        # their done callback during a next iteration of the loop: skip them
+        for expected_response in list(self._expected_response_futures):
+            if expected_response.done():
+                continue
+
             if expected_response.matches(connection, message):
                 expected_response.set_result((connection, message, ))
 
